@@ -1,13 +1,9 @@
-// simchain: L1/L2 simulator binary (full OsmosisApp engines).
+// sim-superfluid: L1 simulator binary with the superfluid (C11) engine only.
 package main
 
 import (
 	"os"
 
-	_ "verif/harness/engines/authz"
-	_ "verif/harness/engines/cl"
-	_ "verif/harness/engines/lockup"
-	_ "verif/harness/engines/mint"
 	_ "verif/harness/engines/superfluid"
 	"verif/harness/simchain"
 	"verif/harness/simcore"
